@@ -1,9 +1,191 @@
-import ShpanVerif.Util.Parse
-/- Driver handler for C13 (stub: replaced when the property's model lands). -/
+import ShpanVerif.Util.TsProto
+import ShpanVerif.Model.Align
+/-
+Driver handler for C13.
+  case := "<period> <ty> reloc=<k> x=<0|1> | <unixNanos>:<cell> ..."      (see harness/run/c13.go)
+  obs  := "A=<res> U=<res> D=<res> R=<res>"
+Model side: the four aligner models over `floatArith` (IEEE binary64), timestamps carrying the location ids
+the harness used (`reloc`); the model never reads them.
+Spec side (`specOk`): the property's clauses evaluated on each observed result with list-level definitions that
+look at the *instants* of the input only - so a result that depends on the representation of the timestamps
+fails clause "value" (or "stamps") for the re-located run.
+-/
 namespace ShpanVerif.Drive.C13
+open ShpanVerif.Util ShpanVerif.Util.TsProto ShpanVerif.Model.Align
+
+structure Case where
+  P : Period
+  ty : Char
+  reloc : Nat
+  exact : Bool
+  pts : List (Int × FCell)
+
+def parseCase (c : String) : Option Case :=
+  match splitAt "|" (words c) with
+  | [[p, ty, rl, x], pts] => do
+    let P ← parsePeriod p
+    let ty ← (match ty.toList with | [ch] => if ch == 'i' || ch == 'f' then some ch else none | _ => none)
+    let rl ← (kv rl "reloc").bind String.toNat?
+    let x ← (kv x "x").bind String.toNat?
+    let pts ← parsePoints pts
+    let pts ← pts.mapM (fun (t, cs) => match cs with | [c] => some (t, c) | _ => none)
+    pure ⟨P, ty, rl, x == 1, pts⟩
+  | _ => none
+
+/-- location id carried by the `idx`-th timestamp under representation `k` (mirrors `tsReloc` in c13.go). -/
+def locOf (k idx : Nat) : Nat :=
+  match k with
+  | 0 => 0 | 1 => 1 | 2 => 2
+  | 3 => (match idx % 4 with | 0 => 2 | 1 => 0 | 2 => 3 | _ => 1)
+  | _ => 3
+
+def isKind (ty : Char) : FCell → Bool
+  | .int _ => ty == 'i'
+  | .flt _ => ty == 'f'
+  | .other _ => false
+
+def dtOf (ty : Char) : DType := if ty == 'i' then .integer else .decimal
+
+def FA := floatArith
+
+def errStr (e : Err) : Res := .err e.toString
+
+def stamps (c : Case) : List Stamp := (List.range c.pts.length).map (fun i => ⟨0, locOf c.reloc i⟩)
+
+def recsOf {β} (c : Case) (f : FCell → β) : List (Rec β) :=
+  (c.pts.zip (List.range c.pts.length)).map (fun ((t, v), i) => ⟨⟨t, locOf c.reloc i⟩, f v⟩)
+
+/-- the four models -/
+def modelA (c : Case) : Res :=
+  if !(c.pts.all (fun p => isKind c.ty p.2)) then .na
+  else if c.ty == 'i' then
+    match alignStream FA (intKind FA) c.P (recsOf c (fun v => match v with | .int i => i | _ => 0)) with
+    | .error e => errStr e
+    | .ok l => .ok (l.map (fun r => (r.ts.inst, [Cell.int r.val])))
+  else
+    match alignStream FA (fltKind (V := Float)) c.P (recsOf c (fun v => match v with | .flt f => f | _ => 0.0)) with
+    | .error e => errStr e
+    | .ok l => .ok (l.map (fun r => (r.ts.inst, [Cell.flt r.val])))
+
+def modelU (c : Case) : Res :=
+  match alignUntyped FA c.P (recsOf c (fun v => [v])) with
+  | .error e => errStr e
+  | .ok l => .ok (l.map (fun r => (r.ts.inst, r.val)))
+
+def modelD (c : Case) : Res :=
+  match alignField FA (dtOf c.ty) c.P (recsOf c id) with
+  | .error e => errStr e
+  | .ok l => .ok (l.map (fun r => (r.ts.inst, [r.val])))
+
+def modelR (c : Case) : Res :=
+  match alignRows FA [dtOf c.ty] c.P (recsOf c (fun v => [v])) with
+  | .error e => errStr e
+  | .ok l => .ok (l.map (fun r => (r.ts.inst, r.val)))
+
+/-! ### the property, list level, instants only -/
+
+/-- remove adjacent duplicates -/
+def dedupAdj : List Int → List Int
+  | [] => []
+  | [a] => [a]
+  | a :: b :: l => if a = b then dedupAdj (b :: l) else a :: dedupAdj (b :: l)
+
+def strictlyIncreasing : List Int → Bool
+  | [] => true
+  | [_] => true
+  | a :: b :: l => a < b && strictlyIncreasing (b :: l)
+
+def lastBefore (pts : List (Int × FCell)) (b : Int) : Option (Int × FCell) := (pts.filter (fun p => p.1 < b)).getLast?
+def firstFrom (pts : List (Int × FCell)) (b : Int) : Option (Int × FCell) := pts.find? (fun p => b ≤ p.1)
+
+def cellF : FCell → Float
+  | .int i => Float.ofInt i
+  | .flt f => f
+  | .other _ => 0.0
+
+/-- Go's formula on binary64: `v1 + (v2-v1)*(Seconds(b-t1)/Seconds(t2-t1))`. -/
+def lerpF (b t1 : Int) (v1 : Float) (t2 : Int) (v2 : Float) : Float :=
+  v1 + (v2 - v1) * (floatSecs (b - t1) / floatSecs (t2 - t1))
+
+/-- expected value at a later boundary `b`; `untyped` = AlignStreamUntyped (always a float64). -/
+def expectAt (ty : Char) (untyped : Bool) (pts : List (Int × FCell)) (b : Int) : Option FCell := do
+  let y ← firstFrom pts b
+  let p ← lastBefore pts b
+  if y.1 = b then pure y.2
+  else
+    let r := lerpF b p.1 (cellF p.2) y.1 (cellF y.2)
+    if untyped || ty == 'f' then pure (.flt r) else pure (.int r.toInt64.toInt)
+
+def between (lo hi v : FCell) : Bool :=
+  match lo, hi, v with
+  | .int a, .int b, .int x => (min a b ≤ x) && (x ≤ max a b)
+  | a, b, x =>
+    let fa := cellF a; let fb := cellF b; let fx := cellF x
+    (if fa ≤ fb then fa else fb) ≤ fx && fx ≤ (if fa ≤ fb then fb else fa)
+
+/-- the clauses of C13 on one observed result -/
+def checkRes (c : Case) (name : String) (untyped : Bool) (r : Res) : Option String :=
+  match r with
+  | .na => none
+  | .err e => some s!"{name}: error {e} on a sorted well-typed series"
+  | .ok out =>
+    let want := dedupAdj (c.pts.map (fun p => c.P.start p.1))
+    let got := out.map (·.1)
+    if got != want then some s!"{name}: stamps differ from the distinct period starts of the input"
+    else if !strictlyIncreasing got then some s!"{name}: stamps not strictly increasing"
+    else
+      match out, c.pts with
+      | [], [] => none
+      | (_, v0) :: rest, (_, x0) :: _ =>
+        if !(match v0 with | [v] => cellEq v x0 | _ => false) then some s!"{name}: first record does not carry the first input value"
+        else
+          rest.foldl (fun acc (b, row) =>
+            match acc with
+            | some e => some e
+            | none =>
+              match row, expectAt c.ty untyped c.pts b with
+              | [v], some w =>
+                if !cellEq v w then some s!"{name}: value at {b} is {fmtCell v}, the instants-only spec gives {fmtCell w} (reloc={c.reloc})"
+                else if c.exact then
+                  match lastBefore c.pts b, firstFrom c.pts b with
+                  | some p, some y => if between p.2 y.2 v then none else some s!"{name}: value at {b} not between its neighbours"
+                  | _, _ => some s!"{name}: no neighbours at {b}"
+                else none
+              | _, _ => some s!"{name}: malformed record at {b}") none
+      | _, _ => some s!"{name}: length mismatch"
+
+def sortedPts (pts : List (Int × FCell)) : Bool :=
+  match pts with
+  | [] => true
+  | [_] => true
+  | a :: b :: l => a.1 ≤ b.1 && sortedPts (b :: l)
+
+def parseObs (obs : String) : Option (Res × Res × Res × Res) :=
+  match words obs with
+  | [a, u, d, r] => do
+    let a ← (kv a "A").bind parseRes
+    let u ← (kv u "U").bind parseRes
+    let d ← (kv d "D").bind parseRes
+    let r ← (kv r "R").bind parseRes
+    pure (a, u, d, r)
+  | _ => none
 
 /-- returns (model output, spec verdict on the observation, reason) -/
-def handle (_c _obs : String) : String × Bool × String :=
-  ("unimplemented", false, "no model yet")
+def handle (cs obs : String) : String × Bool × String :=
+  match parseCase cs with
+  | none => ("bad-case", false, "unparsable case")
+  | some c =>
+    let model := s!"A={fmtRes (modelA c)} U={fmtRes (modelU c)} D={fmtRes (modelD c)} R={fmtRes (modelR c)}"
+    let inScope := sortedPts c.pts && c.pts.all (fun p => isKind c.ty p.2)
+    if !inScope then (model, true, "")
+    else
+      match parseObs obs with
+      | none => (model, false, "unparsable observation")
+      | some (a, u, d, r) =>
+        let a := (match a with | .na => Res.err "missing" | x => x)
+        match [checkRes c "AlignStream" false a, checkRes c "AlignStreamUntyped" true u,
+               checkRes c "datasource.AlignerFilter" false d, checkRes c "report.AlignerFilter" false r].filterMap id with
+        | [] => (model, true, "")
+        | e :: _ => (model, false, e)
 
 end ShpanVerif.Drive.C13
